@@ -15,6 +15,8 @@ def harnesses(tier, seed):
                         sym="span id of every operation in {1,2,3} (so duplicates / re-entry / pops of absent ids are all reached)"))
     hs.append(H("c06::c06_spanstack_out_of_order", desc="enter a, enter b, exit a => current is b; exit b => none", sym="ids"))
     hs.append(H("c06::c06_reach", kind="reach", desc="vacuity twin"))
+    for n, d in (("root", "an explicit root gets no parent"), ("contextual", "a contextual span gets the entered span"), ("explicit", "an explicit parent overrides the current span")):
+        hs.append(H("c06::c06_parent_%s_while_entered" % n, desc="with a span entered on the thread: " + d + "; the current span is unaffected", sym="metadata level"))
     hs.append(H("c06::c06_scope_leaf_to_root", desc="registry chain g<-p<-c: SpanRef::scope() from c and from p yields exactly the ancestors leaf to root; ancestors readable after their handles are gone", sym="metadata levels"))
     hs.append(H("c06::c06_scope_from_root", desc="Scope::from_root() on the same chain yields g, p, c"))
     hs.append(H("c06::c06_parent_resolution_two_threads", tier="thorough", desc="two threads entered in different spans: each thread's current span is its own; a contextual span created on a solver-chosen thread gets that thread's current span as parent", sym="creating thread"))
